@@ -58,7 +58,7 @@ func (plugin *CachingPlugin) OnRequest(
 	lunarAction := &actions.EarlyResponseAction{
 		Status:  cachedResponse.Status,
 		Body:    cachedResponse.Body,
-		Headers: cachedResponse.Headers,
+		Headers: utils.DeepCopyHeaders(cachedResponse.Headers),
 	}
 
 	return lunarAction, nil
@@ -87,7 +87,7 @@ func (plugin *CachingPlugin) OnResponse(
 	cachedResponse := CachedResponse{
 		ID:           onResponse.ID,
 		Body:         onResponse.Body,
-		Headers:      onResponse.Headers,
+		Headers:      utils.DeepCopyHeaders(onResponse.Headers),
 		Status:       onResponse.Status,
 		CreationTime: plugin.clock.Now(),
 	}
